@@ -174,7 +174,7 @@ func (w *World) extraExec(c core.Cmd) bool {
 		}
 		w.recomputes++
 		w.sim.Probe("fault.cache.recompute")
-		// what the rebuilt cache must know: the first occurrence of every entry in
+		// what the rebuilt cache must know: an occurrence of every entry in
 		// the tiles the tool reads (all full tiles; the partial one only when the
 		// tree has no full tile)
 		if pub := w.orc.lastPublished(in.store); pub != nil && pub.STH != nil && !w.orc.tampered {
@@ -184,14 +184,12 @@ func (w *World) extraExec(c core.Cmd) bool {
 			}
 			g := w.orc.truth(in.store)
 			if int64(len(g.entries)) >= cover {
-				in.recomputed = map[[32]byte][2]int64{}
+				in.recomputed = map[[32]byte][][2]int64{}
 				in.recomputedEpoch = in.cacheEpoch
 				for i := int64(0); i < cover; i++ {
 					e := g.entries[i]
 					k := independentCacheKey(&ctlog.PendingLogEntry{Certificate: e.Cert, IsPrecert: e.IsPrecert, IssuerKeyHash: e.IssuerKeyHash})
-					if _, ok := in.recomputed[k]; !ok {
-						in.recomputed[k] = [2]int64{i, e.Timestamp}
-					}
+					in.recomputed[k] = append(in.recomputed[k], [2]int64{i, e.Timestamp})
 				}
 			}
 		}
